@@ -1,1 +1,14 @@
 import XPathV.Theorems.C09
+#print axioms XPathV.Theorems.C09.string_function_arities
+#print axioms XPathV.Theorems.C09.substring3_spec
+#print axioms XPathV.Theorems.C09.substring2_spec
+#print axioms XPathV.Theorems.C09.substring_never_fails
+#print axioms XPathV.Theorems.C09.substring_is_sublist
+#print axioms XPathV.Theorems.C09.contains_spec
+#print axioms XPathV.Theorems.C09.starts_with_spec
+#print axioms XPathV.Theorems.C09.substring_after_spec
+#print axioms XPathV.Theorems.C09.substring_before_spec
+#print axioms XPathV.Theorems.C09.translate_spec
+#print axioms XPathV.Theorems.C09.string_length_spec
+#print axioms XPathV.Theorems.C09.nodeset_argument_first
+#print axioms XPathV.Theorems.C09.nodeset_argument_empty
